@@ -390,167 +390,231 @@ def lcp : List (List Nat) → List Nat
   | [p] => p
   | p :: ps => lcp2 p (lcp ps)
 
+/-! ## tree-only updates of the state (the `Sched` component is untouched)
+
+Every `t…` function below is a sequence of (a) calls of `Model/Sched.lean` functions on the `s`
+component and (b) these updates; `Lemmas/SchedTreeRefine.lean` needs nothing but `(upd ts).s = ts.s`. -/
+
+def TState.setS (ts : TState) (s : State) : TState := { ts with s := s }
+
+/-- tree part of `worker.dequeue` -/
+def TState.unparkTree (ts : TState) (q : ScqId) (w : WId) : TState :=
+  { ts with nodes := match ts.lastOf q w with
+      | some p => dequeueW ts.nodes q p w
+      | none => ts.nodes }
+
+/-- tree part of parking in `getNextTask` -/
+def TState.parkTree (ts : TState) (q : ScqId) (w : WId) : TState :=
+  { ts with nodes := match ts.lastOf q w with
+      | some p => parkW ts.nodes q p w
+      | none => ts.nodes }
+
+/-- `for i := range t.operations { i.incrementExecutingWorkersCount(bq, w) }` -/
+def TState.incOps (ts : TState) (t : Task) (key : WKey) : TState :=
+  { ts with nodes := t.ops.foldl (fun ns o => incExec ns t.scq (ts.invOf o) key ts.s.now) ts.nodes }
+
+/-- `for i := range t.operations { i.decrementExecutingWorkersCount(bq, w) }` -/
+def TState.decOps (ts : TState) (t : Task) (key : WKey) : TState :=
+  { ts with nodes := t.ops.foldl (fun ns o => decExec ns t.scq (ts.invOf o) key ts.s.now) ts.nodes }
+
+/-- `for _, o := range t.operations { o.enqueue() }` -/
+def TState.enqOps (ts : TState) (t : Task) : TState :=
+  { ts with nodes := t.ops.foldl (fun ns o => enqueueOp ts.prioOf ns t.scq (ts.invOf o) o) ts.nodes }
+
+/-- `for _, o := range t.operations { o.removeQueuedFromInvocation() }` -/
+def TState.deqOps (ts : TState) (t : Task) : TState :=
+  { ts with nodes := t.ops.foldl (fun ns o => removeQueuedOp ts.prioOf ns t.scq (ts.invOf o) o) ts.nodes }
+
+/-- `worker.clearLastInvocation` -/
+def TState.clearLast (ts : TState) (q : ScqId) (w : WId) : TState :=
+  { ts with nodes := (match ts.lastOf q w with
+              | some p => clearLastN ts.nodes q p
+              | none => ts.nodes),
+            wx := setWX ts.wx q w (fun y => { y with last := none }) }
+
+/-- `worker.setLastInvocation(i)` for the invocation at `p` of queue `tq` -/
+def TState.setLast (ts : TState) (tq : ScqId) (q : ScqId) (w : WId) (p : List Nat) : TState :=
+  { ts with nodes := setLastN ts.nodes tq p, wx := setWX ts.wx q w (fun y => { y with last := some p }) }
+
+/-- `stickinessStartingTimes[i] = bq.now` for `i ≥ stickinessRetained` -/
+def TState.setSticks (ts : TState) (q : ScqId) (w : WId) (retained : Nat) : TState :=
+  { ts with wx := setWX ts.wx q w (fun y => { y with sticks := restick retained ts.s.now y.sticks }) }
+
+/-- `getOrCreateInvocation` for the invocation of every operation of `t` (in `t`'s queue) -/
+def TState.createOps (ts : TState) (t : Task) : TState :=
+  { ts with nodes := t.ops.foldl (fun ns o => getOrCreate ns t.scq (ts.invOf o) ts.s.now) ts.nodes }
+
+def TState.create (ts : TState) (q : ScqId) (p : List Nat) : TState :=
+  { ts with nodes := getOrCreate ts.nodes q p ts.s.now }
+
+def TState.setOX (ts : TState) (o : Nat) (y : OX) : TState := { ts with ox := aset o y ts.ox }
+def TState.dropOX (ts : TState) (o : Nat) : TState := { ts with ox := aerase o ts.ox }
+def TState.setTX (ts : TState) (t : Nat) (y : TX) : TState := { ts with tx := aset t y ts.tx }
+def TState.dropTX (ts : TState) (t : Nat) : TState := { ts with tx := aerase t ts.tx }
+def TState.qtsOf (ts : TState) (t : Nat) : Nat := match alookup t ts.tx with | some y => y.qts | none => 0
+def TState.log (ts : TState) (d : Decision) : TState := { ts with decisions := d :: ts.decisions }
+
 /-! ## `worker.wakeUp`, `assignUnqueuedTask` -/
 
 /-- `worker.wakeUp`: close the channel (`Sched.wakeWorker`) and dequeue -/
-def tWake (ts : TState) (w : Worker) : TState :=
-  { ts with s := wakeWorker ts.s w,
-            nodes := match ts.lastOf w.scq w.id with
-              | some p => dequeueW ts.nodes w.scq p w.id
-              | none => ts.nodes }
+def tWake (ts : TState) (w : Worker) : TState := (ts.unparkTree w.scq w.id).setS (wakeWorker ts.s w)
+
+/-- tree part of `worker.assignUnqueuedTask` for a real worker: increment, `clearLastInvocation`,
+stickiness starting times -/
+def TState.assignTree (ts : TState) (w : Worker) (t : Task) (retained : Nat) : TState :=
+  (((ts.incOps t (some w.id)).clearLast w.scq w.id).setSticks w.scq w.id retained)
 
 /-- `worker.assignUnqueuedTask` for a real worker -/
 def tAssignTo (ts : TState) (w : Worker) (t : Task) (retained : Nat) : M TState := do
   let s ← assignTo ts.s w t
-  let ns := t.ops.foldl (fun ns o => incExec ns t.scq (ts.invOf o) (some w.id) ts.s.now) ts.nodes
-  let ns := match ts.lastOf w.scq w.id with
-    | some p => clearLastN ns w.scq p
-    | none => ns
-  return { ts with s := s, nodes := ns,
-                   wx := setWX ts.wx w.scq w.id (fun x => { x with last := none, sticks := restick retained ts.s.now x.sticks }) }
+  return (ts.assignTree w t retained).setS s
 
 /-! ## `task.schedule` -/
-
-def TState.enqueueAll (ts : TState) (t : Task) : List Node :=
-  t.ops.foldl (fun ns o => enqueueOp ts.prioOf ns t.scq (ts.invOf o) o) ts.nodes
 
 /-- `task.schedule`: the set of parked workers the task may be handed to is computed from the tree;
 the observed hand-off (`hintedWorker`) must be in it. -/
 def tSchedule (h : Hints) (ts : TState) (tid : Nat) : M TState := do
   let some t := ts.s.task? tid | throw "schedule: no task"
-  let invs := t.ops.map ts.invOf
-  let targets := handoffAdm ts.nodes t.scq invs
   if anyParked ts.s t.scq then
     let some w := hintedWorker h ts.s t | throw "mismatch: parked worker exists but task was not handed to one"
     if !w.parked then throw "mismatch: task handed to a worker that was not parked"
-    if !targets.contains w.id then throw "mismatch: task handed to a parked worker outside the admissible set (C04)"
-    let ts := { ts with decisions := .handoff w.scq w.id t.id ts.nodes invs :: ts.decisions }
+    if !(handoffAdm ts.nodes t.scq (t.ops.map ts.invOf)).contains w.id then
+      throw "mismatch: task handed to a parked worker outside the admissible set (C04)"
     -- assignUnqueuedTaskAndWakeUp: wake first, then assign
-    let ts := tWake ts w
+    let ts := tWake (ts.log (.handoff w.scq w.id t.id ts.nodes (t.ops.map ts.invOf))) w
     let some w := ts.s.worker? w.scq w.id | throw "schedule: worker vanished"
     tAssignTo ts w t 0
   else
-    if !targets.isEmpty then throw "tree: a worker is parked in the invocation tree but not in the worker table"
-    return { ts with s := ts.s.setTask { t with queued := true }, nodes := ts.enqueueAll t }
+    if !(handoffAdm ts.nodes t.scq (t.ops.map ts.invOf)).isEmpty then
+      throw "tree: a worker is parked in the invocation tree but not in the worker table"
+    return (ts.enqOps t).setS (ts.s.setTask { t with queued := true })
 
 /-! ## `task.complete` -/
 
 def queuedHere (ns : List Node) (q : ScqId) (p : List Nat) : Nat :=
   match node? ns q p with | some n => n.qops.length | none => 0
 
+/-- the task after the "assigned to a temporary worker / detached from the real worker" prefix of
+`Sched.complete` -/
+def detachT (t : Task) : Task :=
+  { (if t.worker.isNone then bumpGen { t with queued := false, retry := 0 } else t) with worker := none }
+
+/-- the state after clearing the worker's `currentTask` in `Sched.complete` -/
+def detachW (s : State) (t : Task) : State :=
+  match t.worker with
+  | some (q, w) => match s.worker? q w with
+    | some wk => s.setWorker { wk with task := none }
+    | none => s
+  | none => s
+
+/-- tree part of the stage switch of `task.complete`.  QUEUED: a temporary worker is assigned the task
+(`assignQueuedTask`: increment, dequeue every operation); EXECUTING: `setLastInvocation` (lowest common
+ancestor of the task's invocations when completed by the worker, else the root).  Then
+`for i := range t.operations { i.decrementExecutingWorkersCount(bq, t.currentWorker) }`. -/
+def TState.detachTree (ts : TState) (t : Task) (byWorker : Bool) : TState :=
+  match t.worker with
+  | none => (((ts.incOps t none).deqOps t).decOps t none)
+  | some (q, w) =>
+    (ts.setLast t.scq q w (if byWorker then lcp (t.ops.map ts.invOf) else [])).decOps t (some w)
+
+/-- success branch of `task.complete` (`ts.s`, `t` = detached state / task) -/
+def tCompleteSucc (h : Hints) (x : Extras) (ts : TState) (t : Task) (learner : Nat) (r : Resp) : M TState := do
+  let s := emit ts.s (.learnerSucceeded learner (if h.bg.isSome then some ts.s.nextLearner else none))
+  let t := { t with learner := none }
+  let s ← complete.finalize s t r
+  match h.bg with
+  | none => return ts.setS s
+  | some bgIdx =>
+    let bl := s.nextLearner
+    let s := { s with nextLearner := bl + 1 }
+    let some pq := s.pq? t.scq.pq | throw "complete: no platform queue"
+    if pq.bgMax = 0 then return ts.setS (emit s (.learnerAbandoned bl))
+    let sizes := s.sizes t.scq.pq
+    let some bsc := sizes[min bgIdx (sizes.length - 1)]? | throw "platform queue without size classes"
+    -- `backgroundSCQ.getOrCreateInvocation(bq, BackgroundLearningKeys)`
+    let ts := ts.create ⟨t.scq.pq, bsc⟩ [0]
+    if decide (countQueuedBackground s ⟨t.scq.pq, bsc⟩ ≥ pq.bgMax) ≠ decide (queuedHere ts.nodes ⟨t.scq.pq, bsc⟩ [0] ≥ pq.bgMax) then
+      throw "tree: queued operations of the background learning invocation differ from the queued background tasks"
+    if countQueuedBackground s ⟨t.scq.pq, bsc⟩ ≥ pq.bgMax then return ts.setS (emit s (.learnerAbandoned bl))
+    let opn := s.nextOp
+    let bt : Task := { id := s.nextTask, digest := t.digest, dkey := t.dkey, doNotCache := true, scq := ⟨t.scq.pq, bsc⟩, ops := [opn], worker := none, retry := 0, response := none, gen := 0, learner := some bl, background := true, queued := false }
+    let bo : Op := { name := opn, task := bt.id, inv := [0], prio := pq.bgPrio, waiters := 0, mayExistWithoutWaiters := true }
+    let s := { s with nextTask := s.nextTask + 1, nextOp := opn + 1 }
+    let s := (s.setTask bt).setOp bo
+    tSchedule h (((ts.setOX opn ⟨[0], pq.bgPrio⟩).setTX bt.id ⟨x.bgDur, ts.qtsOf t.id⟩).setS s) bt.id
+
+/-- retry branch of `task.complete`: transplant every operation to the largest size class
+(`getOrCreateInvocation` with the same keys) and reschedule -/
+def tCompleteRetry (h : Hints) (x : Extras) (ts : TState) (t : Task) (learner : Nat) (r : Resp) : M TState := do
+  let s := ts.s
+  let nl := s.nextLearner
+  let s := emit { s with nextLearner := nl + 1 } (.learnerFailed learner (r.code = cDeadlineExceeded) (some nl))
+  let t := { t with learner := some nl, scq := largestScq s t.scq }
+  let s := s.setTask t
+  let ts ← tSchedule h (((ts.setTX t.id ⟨x.retryDur, ts.qtsOf t.id⟩).setS s).createOps t) t.id
+  let some t := ts.s.task? t.id | throw "complete: task vanished"
+  return ts.setS (ts.s.setTask (bumpGen t))
+
 /-- `task.complete(executeResponse, completedByWorker)`. -/
 def tComplete (h : Hints) (x : Extras) (ts : TState) (tid : Nat) (r : Resp) (byWorker : Bool) : M TState := do
   let some t := ts.s.task? tid | throw "complete: no task"
   if t.response.isSome then return ts            -- COMPLETED: nothing to do
-  let now := ts.s.now
-  -- QUEUED: a temporary worker is assigned the task (`assignQueuedTask`: increment, dequeue every
-  -- operation); EXECUTING: `setLastInvocation` (lowest common ancestor, or the root)
-  let ts := match t.worker with
-    | none =>
-      let ns := t.ops.foldl (fun ns o => incExec ns t.scq (ts.invOf o) none now) ts.nodes
-      let ns := t.ops.foldl (fun ns o => removeQueuedOp ts.prioOf ns t.scq (ts.invOf o) o) ns
-      { ts with nodes := ns }
-    | some (q, w) =>
-      let p := if byWorker then lcp (t.ops.map ts.invOf) else []
-      { ts with nodes := setLastN ts.nodes t.scq p, wx := setWX ts.wx q w (fun x => { x with last := some p }) }
-  -- `for i := range t.operations { i.decrementExecutingWorkersCount(bq, t.currentWorker) }`
-  let key : WKey := match t.worker with | none => none | some (_, w) => some w
-  let ts := { ts with nodes := t.ops.foldl (fun ns o => decExec ns t.scq (ts.invOf o) key now) ts.nodes }
-  -- from here on the text of `Sched.complete`
-  let s := ts.s
-  let t := if t.worker.isNone then bumpGen { t with queued := false, retry := 0 } else t
-  let s := match t.worker with
-    | some (q, w) => match s.worker? q w with
-      | some wk => s.setWorker { wk with task := none }
-      | none => s
-    | none => s
-  let t := { t with worker := none }
   let some learner := t.learner | throw "complete: task without learner"
-  if r.code = cOK ∧ r.exit = 0 then
-    let s := emit s (.learnerSucceeded learner (if h.bg.isSome then some s.nextLearner else none))
-    let t := { t with learner := none }
-    let s := if alookup t.dkey s.dedup = some t.id then { s with dedup := aerase t.dkey s.dedup } else s
-    let t := bumpGen { t with response := some r }
-    let s := s.setTask t
-    let s := complete.finishOps s t.ops
-    match h.bg with
-    | none => return { ts with s := s }
-    | some bgIdx =>
-      let bl := s.nextLearner
-      let s := { s with nextLearner := bl + 1 }
-      let some pq := s.pq? t.scq.pq | throw "complete: no platform queue"
-      if pq.bgMax = 0 then return { ts with s := emit s (.learnerAbandoned bl) }
-      let sizes := s.sizes t.scq.pq
-      let some bsc := sizes[min bgIdx (sizes.length - 1)]? | throw "platform queue without size classes"
-      let bq : ScqId := ⟨t.scq.pq, bsc⟩
-      -- `backgroundSCQ.getOrCreateInvocation(bq, BackgroundLearningKeys)`
-      let ns := getOrCreate ts.nodes bq [0] now
-      if decide (countQueuedBackground s bq ≥ pq.bgMax) ≠ decide (queuedHere ns bq [0] ≥ pq.bgMax) then
-        throw "tree: queued operations of the background learning invocation differ from the queued background tasks"
-      if countQueuedBackground s bq ≥ pq.bgMax then return { ts with s := emit s (.learnerAbandoned bl), nodes := ns }
-      let opn := s.nextOp
-      let bt : Task := { id := s.nextTask, digest := t.digest, dkey := t.dkey, doNotCache := true, scq := bq, ops := [opn], worker := none, retry := 0, response := none, gen := 0, learner := some bl, background := true, queued := false }
-      let bo : Op := { name := opn, task := bt.id, inv := [0], prio := pq.bgPrio, waiters := 0, mayExistWithoutWaiters := true }
-      let s := { s with nextTask := s.nextTask + 1, nextOp := opn + 1 }
-      let s := (s.setTask bt).setOp bo
-      let qts := match alookup t.id ts.tx with | some y => y.qts | none => 0
-      tSchedule h { ts with s := s, nodes := ns, ox := aset opn ⟨[0], pq.bgPrio⟩ ts.ox, tx := aset bt.id ⟨x.bgDur, qts⟩ ts.tx } bt.id
+  let ts := (ts.detachTree t byWorker).setS (detachW ts.s t)
+  let t := detachT t
+  if r.code = cOK ∧ r.exit = 0 then tCompleteSucc h x ts t learner r
   else if byWorker then
-    let timedOut := r.code = cDeadlineExceeded
-    if h.retry then
-      let nl := s.nextLearner
-      let s := emit { s with nextLearner := nl + 1 } (.learnerFailed learner timedOut (some nl))
-      -- re-execution on the largest size class: transplant and reschedule
-      let t := { t with learner := some nl, scq := largestScq s t.scq }
-      let s := s.setTask t
-      let ns := t.ops.foldl (fun ns o => getOrCreate ns t.scq (ts.invOf o) now) ts.nodes
-      let qts := match alookup t.id ts.tx with | some y => y.qts | none => 0
-      let ts ← tSchedule h { ts with s := s, nodes := ns, tx := aset t.id ⟨x.retryDur, qts⟩ ts.tx } t.id
-      let some t := ts.s.task? t.id | throw "complete: task vanished"
-      return { ts with s := ts.s.setTask (bumpGen t) }
+    if h.retry then tCompleteRetry h x ts t learner r
     else
-      let s := emit s (.learnerFailed learner timedOut none)
-      return { ts with s := ← complete.finalize s { t with learner := none } r }
+      return ts.setS (← complete.finalize (emit ts.s (.learnerFailed learner (r.code = cDeadlineExceeded) none)) { t with learner := none } r)
   else
-    let s := emit s (.learnerAbandoned learner)
-    return { ts with s := ← complete.finalize s { t with learner := none } r }
+    return ts.setS (← complete.finalize (emit ts.s (.learnerAbandoned learner)) { t with learner := none } r)
 
 /-! ## removing operations, workers, queues -/
+
+/-- tree part of `operation.remove` for an operation of a task that has other operations -/
+def TState.removeOpTree (ts : TState) (t : Task) (o : Nat) : TState :=
+  match t.response, t.worker with
+  | some _, _ => ts
+  | none, some (_, w) => { ts with nodes := decExec ts.nodes t.scq (ts.invOf o) (some w) ts.s.now }
+  | none, none =>
+    { ts with nodes := pruneChain (removeQueuedOp ts.prioOf ts.nodes t.scq (ts.invOf o) o) t.scq (ups (ts.invOf o)) }
 
 /-- `operation.remove` (cleanup callback). -/
 def tRemoveOp (h : Hints) (x : Extras) (ts : TState) (o : Nat) : M TState := do
   let some op := ts.s.op? o | return ts
-  let ts := { ts with s := { ts.s with ops := aerase o ts.s.ops } }
+  let ts := ts.setS { ts.s with ops := aerase o ts.s.ops }
   let some t := ts.s.task? op.task | throw "removeOp: no task"
   let ts ← if t.ops.length = 1 then
       tComplete h x ts t.id ⟨cCanceled, 0, 0, .noWaiters⟩ false
-    else
-      -- the task is shared with other operations: take this one out of its invocation
-      pure (match t.response, t.worker with
-        | some _, _ => ts
-        | none, some (_, w) => { ts with nodes := decExec ts.nodes t.scq (ts.invOf o) (some w) ts.s.now }
-        | none, none =>
-          let ns := removeQueuedOp ts.prioOf ts.nodes t.scq (ts.invOf o) o
-          { ts with nodes := pruneChain ns t.scq (ups (ts.invOf o)) })
+    else pure (ts.removeOpTree t o)
   let some t := ts.s.task? op.task | throw "removeOp: no task"
   let t := { t with ops := t.ops.filter (· ≠ o) }
   -- `delete(t.operations, o.invocation)`
-  let ts := { ts with ox := aerase o ts.ox }
-  if t.ops.isEmpty then return { ts with s := { ts.s with tasks := aerase t.id ts.s.tasks }, tx := aerase t.id ts.tx }
-  return { ts with s := ts.s.setTask t }
+  if t.ops.isEmpty then return ((ts.dropOX o).dropTX t.id).setS { ts.s with tasks := aerase t.id ts.s.tasks }
+  return (ts.dropOX o).setS (ts.s.setTask t)
 
 /-- `rootInvocation.cancelAllQueuedOperations` -/
 def tCancelAllQueued (h : Hints) (x : Extras) (ts : TState) (q : ScqId) (r : Resp) : M TState := do
   let ids := (ts.s.tasks.filter (fun p => p.2.scq = q ∧ p.2.queued ∧ p.2.response.isNone ∧ p.2.worker.isNone)).map (·.1)
   ids.foldlM (fun ts t => tComplete h x ts t r false) ts
 
-/-- `sizeClassQueue.remove` (cleanup callback); the tree of the queue goes with it. -/
+/-- the tree of a removed queue goes with it -/
+def TState.dropScqTree (ts : TState) (q : ScqId) : TState :=
+  { ts with nodes := ts.nodes.filter (fun n => n.scq ≠ q) }
+def TState.dropLimits (ts : TState) (pq : Nat) : TState := { ts with limits := aerase pq ts.limits }
+
+/-- `sizeClassQueue.remove` (cleanup callback). -/
 def tRemoveScq (h : Hints) (x : Extras) (ts : TState) (q : ScqId) : M TState := do
   let ts ← tCancelAllQueued h x ts q ⟨cUnavailable, 0, 0, .queueRemoved⟩
   let s := { ts.s with scqs := ts.s.scqs.filter (fun y => y.id ≠ q) }
-  let ts := { ts with s := s, nodes := ts.nodes.filter (fun n => n.scq ≠ q) }
-  if s.scqs.any (fun y => y.id.pq = q.pq) then return ts
-  return { ts with s := { s with pqs := s.pqs.filter (fun p => p.id ≠ q.pq) }, limits := aerase q.pq ts.limits }
+  if s.scqs.any (fun y => y.id.pq = q.pq) then return (ts.dropScqTree q).setS s
+  return ((ts.dropScqTree q).dropLimits q.pq).setS { s with pqs := s.pqs.filter (fun p => p.id ≠ q.pq) }
+
+/-- `w.clearLastInvocation(); delete(scq.workers, workerKey)` -/
+def TState.dropWorkerTree (ts : TState) (q : ScqId) (w : WId) : TState :=
+  let ts := ts.clearLast q w
+  { ts with wx := ts.wx.filter (fun y => ¬ (y.scq = q ∧ y.id = w)) }
 
 /-- `sizeClassQueue.removeStaleWorker` (cleanup callback). -/
 def tRemoveStaleWorker (h : Hints) (x : Extras) (ts : TState) (q : ScqId) (w : WId) (removalTime : Nat) : M TState := do
@@ -558,16 +622,12 @@ def tRemoveStaleWorker (h : Hints) (x : Extras) (ts : TState) (q : ScqId) (w : W
   let ts ← match wk.task with
     | some t => tComplete h x ts t ⟨cUnavailable, 0, 0, .workerDisappeared⟩ false
     | none => pure ts
-  -- `w.clearLastInvocation(); delete(scq.workers, workerKey)`
-  let ns := match ts.lastOf q w with
-    | some p => clearLastN ts.nodes q p
-    | none => ts.nodes
   let s := { ts.s with workers := ts.s.workers.filter (fun y => ¬ (y.scq = q ∧ y.id = w)) }
-  let ts := { ts with s := s, nodes := ns, wx := ts.wx.filter (fun y => ¬ (y.scq = q ∧ y.id = w)) }
+  let ts := (ts.dropWorkerTree q w).setS s
   match s.scq? q with
   | some sq =>
     if !s.workers.any (fun y => y.scq = q) ∧ sq.mayBeRemoved
-    then return { ts with s := s.addCleanup (removalTime + s.cfg.pqTimeout) (.scq q) } else return ts
+    then return ts.setS (s.addCleanup (removalTime + s.cfg.pqTimeout) (.scq q)) else return ts
   | none => return ts
 
 /-- `cleanupQueue.run(now)` -/
@@ -577,7 +637,7 @@ def tRunCleanup (h : Hints) (x : Extras) : Nat → TState → M TState
     match popDue ts.s.now ts.s.cleanup with
     | none => pure ts
     | some (e, rest) => do
-      let ts := { ts with s := { ts.s with cleanup := rest } }
+      let ts := ts.setS { ts.s with cleanup := rest }
       let ts ← match e.kind with
         | .worker q w => tRemoveStaleWorker h x ts q w e.deadline
         | .op o => tRemoveOp h x ts o
@@ -586,9 +646,29 @@ def tRunCleanup (h : Hints) (x : Extras) : Nat → TState → M TState
 
 /-- `bq.enter(t)` -/
 def tEnter (h : Hints) (x : Extras) (ts : TState) (t : Nat) : M TState :=
-  if t > ts.s.now then tRunCleanup h x (cleanupFuel ts.s) { ts with s := { ts.s with now := t } } else pure ts
+  if t > ts.s.now then tRunCleanup h x (cleanupFuel ts.s) (ts.setS { ts.s with now := t }) else pure ts
 
 /-! ## RPC segments -/
+
+/-- `Execute` after `bq.enter`: the request is deduplicated against task `t`. -/
+def tExecDedup (ts : TState) (c : Nat) (tid : Nat) (t : Task) (inv : List Nat) (prio : Int) : M TState := do
+  let s := emit ts.s .selAbandoned
+  -- `scq.getOrCreateInvocation(bq, invocationKeys)`
+  let ts := ts.create t.scq inv
+  match t.ops.find? (fun o => match s.op? o with | some op => op.inv = inv | none => false) with
+  | some o => return ts.setS (← streamAttach s c o)
+  | none =>
+    if t.response.isSome then throw "Task in unexpected stage"
+    let opn := s.nextOp
+    let s := { s with nextOp := opn + 1 }
+    let s := s.setOp { name := opn, task := tid, inv := inv, prio := prio, waiters := 0, mayExistWithoutWaiters := false }
+    let s := s.setTask { t with ops := t.ops ++ [opn] }
+    let ts := ts.setOX opn ⟨inv, prio⟩
+    -- QUEUED: `o.enqueue()`; EXECUTING: `i.incrementExecutingWorkersCount(bq, t.currentWorker)`
+    let ts := match t.worker with
+      | some (_, w) => { ts with nodes := incExec ts.nodes t.scq inv (some w) ts.s.now }
+      | none => { ts with nodes := enqueueOp ts.prioOf ts.nodes t.scq inv opn }
+    return ts.setS (← streamAttach s c opn)
 
 /-- `Execute`, from `bq.enter` to the first park (or return). -/
 def tExecArrive (h : Hints) (x : Extras) (ts : TState) (now c digest dkey : Nat) (dnc : Bool) (comps : List Nat)
@@ -598,28 +678,12 @@ def tExecArrive (h : Hints) (x : Extras) (ts : TState) (now c digest dkey : Nat)
   match alookup dkey s.dedup with
   | some tid =>
     let some t := s.task? tid | throw "dedup map points to a missing task"
-    let s := emit s .selAbandoned
-    -- `scq.getOrCreateInvocation(bq, invocationKeys)`
-    let ns := getOrCreate ts.nodes t.scq inv s.now
-    match t.ops.find? (fun o => match s.op? o with | some op => op.inv = inv | none => false) with
-    | some o => return { ts with s := ← streamAttach s c o, nodes := ns }
-    | none =>
-      if t.response.isSome then throw "Task in unexpected stage"
-      let opn := s.nextOp
-      let s := { s with nextOp := opn + 1 }
-      let s := s.setOp { name := opn, task := tid, inv := inv, prio := prio, waiters := 0, mayExistWithoutWaiters := false }
-      let s := s.setTask { t with ops := t.ops ++ [opn] }
-      let ts := { ts with ox := aset opn ⟨inv, prio⟩ ts.ox }
-      -- QUEUED: `o.enqueue()`; EXECUTING: `i.incrementExecutingWorkersCount(bq, t.currentWorker)`
-      let ns := match t.worker with
-        | some (_, w) => incExec ns t.scq inv (some w) s.now
-        | none => enqueueOp ts.prioOf ns t.scq inv opn
-      return { ts with s := ← streamAttach s c opn, nodes := ns }
+    tExecDedup ts c tid t inv prio
   | none =>
     match route s comps platform with
     | none =>
       let s := emit s .selAbandoned
-      return { ts with s := emit s (.ret c (if s.now < s.cfg.hardFailTime then cUnavailable else cFailedPrecondition)) }
+      return ts.setS (emit s (.ret c (if s.now < s.cfg.hardFailTime then cUnavailable else cFailedPrecondition)))
     | some pq =>
       let sizes := s.sizes pq.id
       let some sc := sizes[min h.sel (sizes.length - 1)]? | throw "platform queue without size classes"
@@ -631,30 +695,29 @@ def tExecArrive (h : Hints) (x : Extras) (ts : TState) (now c digest dkey : Nat)
       let s := { s with nextTask := tid + 1, nextOp := opn + 1 }
       let s := if dnc then s else { s with dedup := aset dkey tid s.dedup }
       let s := (s.setTask t).setOp { name := opn, task := tid, inv := inv, prio := prio, waiters := 0, mayExistWithoutWaiters := false }
-      let ts := { ts with s := s, nodes := getOrCreate ts.nodes t.scq inv s.now, ox := aset opn ⟨inv, prio⟩ ts.ox,
-                          tx := aset tid ⟨x.selDur.getD (min h.sel (sizes.length - 1)) 0, s.now⟩ ts.tx }
+      let ts := (((ts.setOX opn ⟨inv, prio⟩).setTX tid ⟨x.selDur.getD (min h.sel (sizes.length - 1)) 0, s.now⟩).setS s).create ⟨pq.id, sc⟩ inv
       let ts ← tSchedule h ts tid
-      return { ts with s := ← streamAttach ts.s c opn }
+      return ts.setS (← streamAttach ts.s c opn)
 
 /-- `WaitExecution` by name. -/
 def tWaitArrive (h : Hints) (x : Extras) (ts : TState) (now c name : Nat) : M TState := do
   let ts ← tEnter h x ts now
   match ts.s.op? name with
-  | none => return { ts with s := emit ts.s (.ret c cNotFound) }
-  | some _ => return { ts with s := ← streamAttach ts.s c name }
+  | none => return ts.setS (emit ts.s (.ret c cNotFound))
+  | some _ => return ts.setS (← streamAttach ts.s c name)
 
 /-- a parked stream continues. -/
 def tStreamWake (h : Hints) (x : Extras) (ts : TState) (now c reason : Nat) : M TState := do
   let ts ← tEnter h x ts now
   let s := ts.s
   let some st := s.streams.find? (fun y => y.client = c) | throw "mismatch: no such parked stream"
-  if reason = 2 then return { ts with s := ← streamLeave s c cCanceled }
+  if reason = 2 then return ts.setS (← streamLeave s c cCanceled)
   else
     if reason = 0 then
       let some op := s.op? st.op | throw "streamWake: no operation"
       let some t := s.task? op.task | throw "streamWake: no task"
       if t.gen = st.snap then throw "mismatch: stream woke up without a stage change"
-    return { ts with s := ← streamSend s c st.op }
+    return ts.setS (← streamSend s c st.op)
 
 /-- what `worker.assignNextQueuedTask` is given by the worker -/
 def TState.view (ts : TState) (w : Worker) : Fair.WView :=
@@ -663,58 +726,58 @@ def TState.view (ts : TState) (w : Worker) : Fair.WView :=
     starts := match ts.wx? w.scq w.id with | some y => y.sticks | none => [],
     now := ts.s.now }
 
-/-- `worker.assignNextQueuedTask`: the observed pick must be in the documented admissible set
-(`Fair.specPick`) of the tree as it is now. -/
+/-- the documented admissible set (`Fair.specPick`) on the tree as it is now -/
+def TState.admPick (ts : TState) (w : Worker) : List (Fair.Op × Nat) :=
+  Fair.specPick (snapshot ts.opOf ts.nodes w.scq) (ts.view w)
+
+/-- the member of the admissible set that hands out task `t` (with the observed `stickinessRetained`
+when two operations of the task are admissible with different values) -/
+def choosePick (x : Extras) (adm : List (Fair.Op × Nat)) (t : Task) : Option (Fair.Op × Nat) :=
+  let mine := adm.filter (fun c => t.ops.contains c.1.id)
+  match x.ret with
+  | some r => (match mine.find? (fun c => c.2 = r) with | some c => some c | none => mine.head?)
+  | none => mine.head?
+
+/-- `worker.assignNextQueuedTask`: the observed pick must be in the admissible set. -/
 def tAssignNext (h : Hints) (x : Extras) (ts : TState) (w : Worker) : M (TState × Bool) := do
-  let tree := snapshot ts.opOf ts.nodes w.scq
-  let view := ts.view w
-  let adm := Fair.specPick tree view
   match h.assign.find? (fun a => a.1 = w.scq ∧ a.2.1 = w.id) with
   | some a =>
     let some t := (queuedTasks ts.s w.scq).find? (fun t => lowestOp t = a.2.2)
       | throw "mismatch: worker was given a task that is not queued in its size-class queue"
-    let mine := adm.filter (fun c => t.ops.contains c.1.id)
-    let some (o, retained) := (match x.ret with
-        | some r => (match mine.find? (fun c => c.2 = r) with | some c => some c | none => mine.head?)
-        | none => mine.head?)
+    let some c := choosePick x (ts.admPick w) t
       | throw "mismatch: worker was given a queued task outside the admissible set (C04)"
-    let ts := { ts with decisions := .pick w.scq w.id t.id tree view o retained :: ts.decisions }
+    let ts := ts.log (.pick w.scq w.id t.id (snapshot ts.opOf ts.nodes w.scq) (ts.view w) c.1 c.2)
     -- assignQueuedTask: assign, dequeue every operation, report a non-final stage change
-    let ts ← tAssignTo ts w t retained
-    let ns := t.ops.foldl (fun ns o => removeQueuedOp ts.prioOf ns t.scq (ts.invOf o) o) ts.nodes
+    let ts ← tAssignTo ts w t c.2
+    let ts := ts.deqOps t
     let some t := ts.s.task? t.id | throw "assignNext: task vanished"
-    return ({ ts with s := ts.s.setTask (bumpGen t), nodes := ns }, true)
+    return (ts.setS (ts.s.setTask (bumpGen t)), true)
   | none =>
     if (queuedTasks ts.s w.scq).isEmpty then
-      if !adm.isEmpty then throw "tree: operations are queued in the invocation tree but no task is queued"
+      if !(ts.admPick w).isEmpty then throw "tree: operations are queued in the invocation tree but no task is queued"
       return (ts, false)
     throw "mismatch: tasks are queued but the worker was not given one"
 
 /-- `getNextTask`, up to the point where the call returns or blocks. -/
 def tGetNextTask (h : Hints) (x : Extras) (ts : TState) (q : ScqId) (w : WId) (preferIdle block : Bool) : M TState := do
-  let s := ts.s
-  let some wk := s.worker? q w | throw "getNextTask: no worker"
-  let some sq := s.scq? q | throw "getNextTask: no queue"
-  if preferIdle then return { ts with s := syncReturn (emit s (.syncIdle q w s.now)) q w }
+  let some wk := ts.s.worker? q w | throw "getNextTask: no worker"
+  let some sq := ts.s.scq? q | throw "getNextTask: no queue"
+  if preferIdle then return ts.setS (syncReturn (emit ts.s (.syncIdle q w ts.s.now)) q w)
   let drained := isDrained sq wk
   if !drained then
     let (ts, got) ← tAssignNext h x ts wk
     let s := ts.s
     if got then
       let some wk := s.worker? q w | throw "getNextTask: worker vanished"
-      return { ts with s := syncReturn (← execResponse s wk) q w }
-    if !block then return { ts with s := syncReturn (emit s (.syncIdle q w s.now)) q w }
+      return ts.setS (syncReturn (← execResponse s wk) q w)
+    if !block then return ts.setS (syncReturn (emit s (.syncIdle q w s.now)) q w)
     -- park as idle synchronizing worker of the last invocation
     let some wk := s.worker? q w | throw "getNextTask: worker vanished"
     if wk.parked then throw "Worker is already queued"
-    let ns := match ts.lastOf q w with
-      | some p => parkW ts.nodes q p w
-      | none => ts.nodes
-    return { ts with s := s.setWorker { wk with parked := true, woken := false, timer := some (wk.timer.getD (s.now + s.cfg.idleInterval)) },
-                     nodes := ns }
+    return (ts.parkTree q w).setS (s.setWorker { wk with parked := true, woken := false, timer := some (wk.timer.getD (s.now + s.cfg.idleInterval)) })
   else
-    if !block then return { ts with s := syncReturn (emit s (.syncIdle q w s.now)) q w }
-    return { ts with s := s.setWorker { wk with drainWait := some sq.undrainGen, timer := some (wk.timer.getD (s.now + s.cfg.idleInterval)) } }
+    if !block then return ts.setS (syncReturn (emit ts.s (.syncIdle q w ts.s.now)) q w)
+    return ts.setS (ts.s.setWorker { wk with drainWait := some sq.undrainGen, timer := some (wk.timer.getD (ts.s.now + ts.s.cfg.idleInterval)) })
 
 /-- `getCurrentOrNextTask`. -/
 def tGetCurrentOrNext (h : Hints) (x : Extras) (ts : TState) (q : ScqId) (w : WId) (preferIdle block : Bool) : M TState := do
@@ -725,29 +788,38 @@ def tGetCurrentOrNext (h : Hints) (x : Extras) (ts : TState) (q : ScqId) (w : WI
     let some t := s.task? tid | throw "worker points to a missing task"
     if t.retry < s.cfg.retryCount then
       let s := s.setTask { t with retry := t.retry + 1 }
-      return { ts with s := syncReturn (emit s (.syncExecute q w t.digest (s.now + s.cfg.busyInterval))) q w }
+      return ts.setS (syncReturn (emit s (.syncExecute q w t.digest (s.now + s.cfg.busyInterval))) q w)
     let ts ← tComplete h x ts tid ⟨cInternal, 0, 0, .retryLimit⟩ false
     tGetNextTask h x ts q w preferIdle block
   | none => tGetNextTask h x ts q w preferIdle block
 
+/-- `addSizeClassQueue` (and `addPlatformQueue(platformKey, nil, 0, 0)` for an unknown platform): the new
+queue starts with its root invocation -/
+def TState.addScqTree (ts : TState) (q : ScqId) : TState :=
+  { ts with nodes := ts.nodes ++ [mkNode q [] 0],
+            limits := if (ts.s.pq? q.pq).isSome then ts.limits else aset q.pq [] ts.limits }
+
 /-- first part of `Synchronize`: find or create the size-class queue (with its root invocation). -/
 def tSyncQueue (ts : TState) (q : ScqId) (comps : List Nat) (platform : Nat) (w : WId) : M (TState ⊕ TState) := do
   match ← syncQueue ts.s q comps platform w with
-  | .inl s => return .inl { ts with s := s }
+  | .inl s => return .inl (ts.setS s)
   | .inr s =>
-    if (ts.s.scq? q).isSome then return .inr { ts with s := s }
-    -- `addSizeClassQueue` (and `addPlatformQueue(platformKey, nil, 0, 0)` for an unknown platform)
-    let limits := if (ts.s.pq? q.pq).isSome then ts.limits else aset q.pq [] ts.limits
-    return .inr { ts with s := s, nodes := ts.nodes ++ [mkNode q [] 0], limits := limits }
+    if (ts.s.scq? q).isSome then return .inr (ts.setS s)
+    return .inr ((ts.addScqTree q).setS s)
 
-/-- second part: find or create the worker (`lastInvocation = &scq.rootInvocation`). -/
+/-- a new worker: `lastInvocation = &scq.rootInvocation`, `idleWorkersCount++`,
+`stickinessStartingTimes = make([]time.Time, len(limits))` -/
+def TState.addWorkerTree (ts : TState) (q : ScqId) (w : WId) : TState :=
+  { ts with nodes := setLastN ts.nodes q [],
+            wx := ts.wx ++ [{ scq := q, id := w, last := some [], sticks := List.replicate (ts.limitsOf q.pq).length 0 }] }
+
+/-- second part: find or create the worker. -/
 def tSyncWorker (ts : TState) (q : ScqId) (w : WId) : TState ⊕ TState :=
   match syncWorker ts.s q w with
-  | .inl s => .inl { ts with s := s }
+  | .inl s => .inl (ts.setS s)
   | .inr s =>
-    if (ts.s.worker? q w).isSome then .inr { ts with s := s }
-    else .inr { ts with s := s, nodes := setLastN ts.nodes q [],
-                        wx := ts.wx ++ [{ scq := q, id := w, last := some [], sticks := List.replicate (ts.limitsOf q.pq).length 0 }] }
+    if (ts.s.worker? q w).isSome then .inr (ts.setS s)
+    else .inr ((ts.addWorkerTree q w).setS s)
 
 /-- `Synchronize`, from `bq.enter` to the first park (or return). -/
 def tSyncArrive (h : Hints) (x : Extras) (ts : TState) (now : Nat) (q : ScqId) (comps : List Nat) (platform : Nat)
@@ -761,30 +833,34 @@ def tSyncArrive (h : Hints) (x : Extras) (ts : TState) (now : Nat) (q : ScqId) (
   | .inr ts =>
   let s := ts.s
   let some wk := s.worker? q w | throw "syncArrive: worker vanished"
-  let runningCorrect (d : Nat) : Bool :=
-    match wk.task with
-    | some tid => match s.task? tid with | some t => t.digest = d | none => false
-    | none => false
   match rep with
-  | .malformed => return { ts with s := syncReturn (emit s (.syncErr q w cInvalidArgument)) q w }
+  | .malformed => return ts.setS (syncReturn (emit s (.syncErr q w cInvalidArgument)) q w)
   | .idle => tGetCurrentOrNext h x ts q w preferIdle true
   | .executing d =>
-    if runningCorrect d then return { ts with s := syncReturn (emit s (.syncNoChange q w (s.now + s.cfg.busyInterval))) q w }
-    else tGetCurrentOrNext h x ts q w preferIdle false
+    -- `isRunningCorrectTask`
+    match wk.task with
+    | some tid =>
+      match s.task? tid with
+      | some t =>
+        if t.digest = d then return ts.setS (syncReturn (emit s (.syncNoChange q w (s.now + s.cfg.busyInterval))) q w)
+        else tGetCurrentOrNext h x ts q w preferIdle false
+      | none => tGetCurrentOrNext h x ts q w preferIdle false
+    | none => tGetCurrentOrNext h x ts q w preferIdle false
   | .completed d r =>
-    if runningCorrect d then
-      let some tid := wk.task | throw "syncArrive: no task"
-      let ts ← tComplete h x ts tid r true
-      tGetNextTask h x ts q w preferIdle true
-    else tGetCurrentOrNext h x ts q w preferIdle true
+    match wk.task with
+    | some tid =>
+      match s.task? tid with
+      | some t =>
+        if t.digest = d then do
+          let ts ← tComplete h x ts tid r true
+          tGetNextTask h x ts q w preferIdle true
+        else tGetCurrentOrNext h x ts q w preferIdle true
+      | none => tGetCurrentOrNext h x ts q w preferIdle true
+    | none => tGetCurrentOrNext h x ts q w preferIdle true
 
 /-- `worker.maybeDequeue` (tree part) -/
-def TState.maybeDequeue (ts : TState) (wk : Worker) : List Node :=
-  if wk.parked then
-    match ts.lastOf wk.scq wk.id with
-    | some p => dequeueW ts.nodes wk.scq p wk.id
-    | none => ts.nodes
-  else ts.nodes
+def TState.maybeDequeue (ts : TState) (wk : Worker) : TState :=
+  if wk.parked then ts.unparkTree wk.scq wk.id else ts
 
 /-- a blocked `Synchronize` continues. -/
 def tSyncWake (h : Hints) (x : Extras) (ts : TState) (now : Nat) (q : ScqId) (w : WId) (reason : Nat) : M TState := do
@@ -794,83 +870,84 @@ def tSyncWake (h : Hints) (x : Extras) (ts : TState) (now : Nat) (q : ScqId) (w 
   if !wk.inSync then throw "mismatch: worker is not inside Synchronize"
   match reason with
   | 1 =>
-    let ts := { ts with nodes := ts.maybeDequeue wk }
     let s := s.setWorker { wk with parked := false, woken := false, drainWait := none }
-    if wk.task.isSome then return { ts with s := syncReturn (← execResponse s wk) q w }
-    return { ts with s := syncReturn (emit s (.syncIdle q w s.now)) q w }
+    if wk.task.isSome then return (ts.maybeDequeue wk).setS (syncReturn (← execResponse s wk) q w)
+    return (ts.maybeDequeue wk).setS (syncReturn (emit s (.syncIdle q w s.now)) q w)
   | 2 =>
-    let ts := { ts with nodes := ts.maybeDequeue wk }
     let s := s.setWorker { wk with parked := false, woken := false, drainWait := none }
-    return { ts with s := syncReturn (emit s (.syncErr q w cCanceled)) q w }
+    return (ts.maybeDequeue wk).setS (syncReturn (emit s (.syncErr q w cCanceled)) q w)
   | 0 =>
     if !wk.woken then throw "mismatch: worker woke up although its wakeup channel is open"
     let s := s.setWorker { wk with woken := false }
-    if wk.task.isSome then return { ts with s := syncReturn (← execResponse s wk) q w }
-    tGetNextTask h x { ts with s := s } q w false true
+    if wk.task.isSome then return ts.setS (syncReturn (← execResponse s wk) q w)
+    tGetNextTask h x (ts.setS s) q w false true
   | 3 =>
     let some sq := s.scq? q | throw "syncWake: no queue"
     match wk.drainWait with
     | some g =>
       if g = sq.undrainGen then throw "mismatch: worker woke up without an undrain"
       let s := s.setWorker { wk with drainWait := none }
-      tGetNextTask h x { ts with s := s } q w false true
+      tGetNextTask h x (ts.setS s) q w false true
     | none => throw "mismatch: worker is not waiting for an undrain"
   | _ => throw "bad-op"
 
 def tKillOp (h : Hints) (x : Extras) (ts : TState) (now name code : Nat) : M TState := do
   let ts ← tEnter h x ts now
   match ts.s.op? name with
-  | none => return { ts with s := emit ts.s (.opErr cNotFound) }
+  | none => return ts.setS (emit ts.s (.opErr cNotFound))
   | some op =>
     let ts ← tComplete h x ts op.task ⟨code, 0, 0, .killed⟩ false
-    return { ts with s := emit ts.s .opOk }
+    return ts.setS (emit ts.s .opOk)
 
 def tKillQueue (h : Hints) (x : Extras) (ts : TState) (now : Nat) (q : ScqId) (code : Nat) : M TState := do
   let ts ← tEnter h x ts now
   match ts.s.scq? q with
-  | none => return { ts with s := emit ts.s (.opErr cNotFound) }
+  | none => return ts.setS (emit ts.s (.opErr cNotFound))
   | some _ =>
-    if ts.s.workers.any (fun w => w.scq = q) then return { ts with s := emit ts.s (.opErr cFailedPrecondition) }
+    if ts.s.workers.any (fun w => w.scq = q) then return ts.setS (emit ts.s (.opErr cFailedPrecondition))
     let ts ← tCancelAllQueued h x ts q ⟨code, 0, 0, .killed⟩
-    return { ts with s := emit ts.s .opOk }
+    return ts.setS (emit ts.s .opOk)
 
 def tAddDrain (h : Hints) (x : Extras) (ts : TState) (now : Nat) (q : ScqId) (p : Pattern) : M TState := do
   let ts ← tEnter h x ts now
   match ts.s.scq? q with
-  | none => return { ts with s := emit ts.s (.opErr cNotFound) }
+  | none => return ts.setS (emit ts.s (.opErr cNotFound))
   | some sq =>
-    let ts := { ts with s := ts.s.setScq { sq with drains := if sq.drains.contains p then sq.drains else sq.drains ++ [p] } }
+    let ts := ts.setS (ts.s.setScq { sq with drains := if sq.drains.contains p then sq.drains else sq.drains ++ [p] })
     let ts := ts.s.workers.foldl (fun ts w => if w.scq = q ∧ w.parked ∧ p.matches w.id then tWake ts w else ts) ts
-    return { ts with s := emit ts.s .opOk }
+    return ts.setS (emit ts.s .opOk)
 
 def tRemoveDrain (h : Hints) (x : Extras) (ts : TState) (now : Nat) (q : ScqId) (p : Pattern) : M TState := do
   let ts ← tEnter h x ts now
   match ts.s.scq? q with
-  | none => return { ts with s := emit ts.s (.opErr cNotFound) }
+  | none => return ts.setS (emit ts.s (.opErr cNotFound))
   | some sq =>
     let s := ts.s.setScq { sq with drains := sq.drains.filter (· ≠ p), undrainGen := sq.undrainGen + 1 }
-    return { ts with s := emit s .opOk }
+    return ts.setS (emit s .opOk)
+
+/-- one iteration of the loop of `TerminateWorkers` -/
+def tTerminateOne (ts : TState) (w : Worker) : TState :=
+  match ts.s.worker? w.scq w.id with
+  | some w =>
+    let ts := ts.setS (ts.s.setWorker { w with terminating := true })
+    if w.task.isNone ∧ w.parked then
+      match ts.s.worker? w.scq w.id with | some w' => tWake ts w' | none => ts
+    else ts
+  | none => ts
 
 def tTerminate (h : Hints) (x : Extras) (ts : TState) (now id : Nat) (p : Pattern) : M TState := do
   let ts ← tEnter h x ts now
   let matching := ts.s.workers.filter (fun w => p.matches w.id)
-  let ts := matching.foldl (fun ts w =>
-    match ts.s.worker? w.scq w.id with
-    | some w =>
-      let ts := { ts with s := ts.s.setWorker { w with terminating := true } }
-      if w.task.isNone ∧ w.parked then
-        match ts.s.worker? w.scq w.id with | some w' => tWake ts w' | none => ts
-      else ts
-    | none => ts) ts
+  let ts := matching.foldl tTerminateOne ts
   let s := ts.s
   let waits := matching.filterMap (fun w => match w.task with
     | some t => match s.task? t with | some tk => some (t, tk.gen) | none => none
     | none => none)
-  if waits.isEmpty then return { ts with s := emit s (.termRet id cOK) }
-  return { ts with s := { s with terms := ⟨id, waits⟩ :: s.terms } }
+  if waits.isEmpty then return ts.setS (emit s (.termRet id cOK))
+  return ts.setS { s with terms := ⟨id, waits⟩ :: s.terms }
 
 def tTermWake (ts : TState) (id reason : Nat) : M TState := do
-  return { ts with s := ← termWake ts.s id reason }
+  return ts.setS (← termWake ts.s id reason)
 
 /-- `RegisterPredeclaredPlatformQueue`: every size-class queue starts with its root invocation. -/
 def tRegisterPQ (x : Extras) (ts : TState) (id : Nat) (comps : List Nat) (platform : Nat) (sizes : List Nat) (bgMax : Nat)
@@ -887,21 +964,20 @@ structure TSeg where
   x : Extras := {}
 
 def tstep (ts : TState) (g : TSeg) : M TState :=
-  let x := g.x
   match g.seg with
-  | .register id comps platform sizes bgMax bgPrio => pure (tRegisterPQ x ts id comps platform sizes bgMax bgPrio)
-  | .exec h now c d dk dnc comps platform inv prio => tExecArrive h x ts now c d dk dnc comps platform inv prio
-  | .wait h now c name => tWaitArrive h x ts now c name
-  | .streamWake h now c reason => tStreamWake h x ts now c reason
-  | .sync h now q comps platform w rep pi => tSyncArrive h x ts now q comps platform w rep pi
-  | .syncWake h now q w reason => tSyncWake h x ts now q w reason
-  | .killOp h now name code => tKillOp h x ts now name code
-  | .killQueue h now q code => tKillQueue h x ts now q code
-  | .addDrain h now q p => tAddDrain h x ts now q p
-  | .removeDrain h now q p => tRemoveDrain h x ts now q p
-  | .terminate h now id p => tTerminate h x ts now id p
+  | .register id comps platform sizes bgMax bgPrio => pure (tRegisterPQ g.x ts id comps platform sizes bgMax bgPrio)
+  | .exec h now c d dk dnc comps platform inv prio => tExecArrive h g.x ts now c d dk dnc comps platform inv prio
+  | .wait h now c name => tWaitArrive h g.x ts now c name
+  | .streamWake h now c reason => tStreamWake h g.x ts now c reason
+  | .sync h now q comps platform w rep pi => tSyncArrive h g.x ts now q comps platform w rep pi
+  | .syncWake h now q w reason => tSyncWake h g.x ts now q w reason
+  | .killOp h now name code => tKillOp h g.x ts now name code
+  | .killQueue h now q code => tKillQueue h g.x ts now q code
+  | .addDrain h now q p => tAddDrain h g.x ts now q p
+  | .removeDrain h now q p => tRemoveDrain h g.x ts now q p
+  | .terminate h now id p => tTerminate h g.x ts now id p
   | .termWake id reason => tTermWake ts id reason
-  | .touch h now => tEnter h x ts now
+  | .touch h now => tEnter h g.x ts now
 
 def trun (ts : TState) : List TSeg → TState
   | [] => ts
